@@ -1,6 +1,7 @@
 import RdsProofs.Reach
 import RdsProofs.CellsProofs
 import RdsProofs.TableC02
+import RdsProofs.RefineProofs
 /-!
 # Property C02 — PS/RT/PTYN characters land in the addressed cells via the RDS charset
 
@@ -12,6 +13,7 @@ the selected buffer). `C02_error_free` is the property's wording for an error-fr
 lane-independent) equals the hand-written RDS G0 reference; `C02_stored`: exactly 0x0D and bytes ≥ 0x20 are stored.
 -/
 -- THEOREM: RDS.C02
+-- THEOREM: RDS.C02_closed_form
 -- THEOREM: RDS.C02_error_free
 -- THEOREM: RDS.updateSingle_cellSpec
 -- THEOREM: RDS.C02_charset
@@ -21,8 +23,16 @@ lane-independent) equals the hand-written RDS G0 reference; `C02_stored`: exactl
 -- THEOREM: RDS.C02_lane_independent
 namespace RDS
 
-/-- C02 (with C06, C08) for every history and every next call -/
+/-- C02 for every history and every next call: `chkC02` is exactly what C02 states (a non-addressed cell never
+changes; an addressed cell keeps its content or holds the table image of the received byte; with error-free blocks
+it holds exactly the end-of-text marker / old content / table image at level 0) -/
 theorem C02 (tb : Tabs) (h : EccOk tb) (ops : List Op) (op : Op) :
+    chkC02 tb.cfg (monAfter tb.cfg ops) (recOf tb.cfg (run tb.cfg ops) op) = true := by
+  have hr := reach tb h ops
+  exact chkC02_ok tb _ _ op hr.1 hr.2
+
+/-- the complete closed form of all four texts after any call (C02 ∧ C06 ∧ C07 ∧ C08 together) -/
+theorem C02_closed_form (tb : Tabs) (h : EccOk tb) (ops : List Op) (op : Op) :
     chkCells tb.cfg (monAfter tb.cfg ops) (recOf tb.cfg (run tb.cfg ops) op) = true := by
   have hr := reach tb h ops
   exact chkCells_ok tb _ _ op hr.1 hr.2
